@@ -4862,6 +4862,11 @@ impl<'a> SpanTotal<'a> {
         }
 
         assert!(self.unit >= Unit::Day);
+        // A zero span has no direction, so the window of one unit computed
+        // below would be empty and the fraction `0/0`.
+        if relspan.span.is_zero() {
+            return Ok(0.0);
+        }
         let sign = relspan.span.get_sign_ranged();
         let (relative_start, relative_end) = match relspan.kind {
             RelativeSpanKind::Civil { start, end } => {
